@@ -1584,7 +1584,9 @@ def _np_prod(ex, a, k):
 def _np_sqrt(ex, a, k):
     v = a[0]
     if isinstance(v, STensor):
-        raise OutOfSubset('np.sqrt of array')
+        # numpy ufunc on a torch tensor returns a tensor of the same shape (value-abstract here)
+        out = STensor(list(v.axes), v.dtype if v.dtype in T.FLOATS + T.COMPLEX else 'float64', None, lib=v.lib)
+        return T.derive(out, v)
     if isinstance(v, int) and v == 0:
         return 0.0
     return sym_sqrt(ex, v)
